@@ -1242,6 +1242,13 @@ def rule_eos_by_position_only_inmemory(ctx):
                'never decoded' % why if not ok else 'isinstance(substrate, io.BytesIO)', node=sk.ast)
 
 
+def _preorder(node):
+    """Nodes of a statement in source order (ast.walk is breadth-first)."""
+    yield node
+    for ch in ast.iter_child_nodes(node):
+        yield from _preorder(ch)
+
+
 def rule_derived_tables_fresh_instances(ctx):
     """A1.shared: the CER / DER tables start as shallow copies of their parent's, so the codec INSTANCES in them are shared
     with BER.  Module-level code of a derived codec module stores attributes only on instances it has just made
@@ -1260,8 +1267,10 @@ def rule_derived_tables_fresh_instances(ctx):
                     var = t.value.id
                     n += 1
                     # definitions of `var` in the same top-level statement that precede the store
-                    defs = [x for x in ast.walk(top) if isinstance(x, ast.Assign) and x.lineno < a.lineno and
-                            any(isinstance(tt, ast.Name) and tt.id == var for tt in x.targets)]
+                    # (textual order, not line numbers: an inlined helper's statements all carry the line of its call)
+                    seq = [x for x in _preorder(top) if isinstance(x, ast.Assign)]
+                    upto = next(i for i, x in enumerate(seq) if x is a)
+                    defs = [x for x in seq[:upto] if any(isinstance(tt, ast.Name) and tt.id == var for tt in x.targets)]
                     fresh = bool(defs) and isinstance(defs[-1].value, ast.Call) and (
                         norm(defs[-1].value.func).endswith('.__class__') or (isinstance(defs[-1].value.func, (ast.Name, ast.Attribute)) and
                                                                            norm(defs[-1].value.func)[:1].isupper()))
